@@ -92,6 +92,11 @@ def structured():
         d = parts
         nm = "Xa" if sym in ("Xa", "*") else "Yb"
         out.append(finish([mkfile("proj", d, nm, d), mkfile("lib", d, nm, d), mkfile("proj", [], "main", ["?"], [{"parts": parts, "sym": sym}], True)], 3))
+    # the entry file inside a package importing its own package wholesale (it must not be loaded a second time), with the package
+    # root as working directory / as search path
+    for cwd, search in (("proj", ("lib",)), ("cwd", ("proj",)), ("proj", ())):
+        out.append(finish([mkfile("proj", ["p"], "Xa", ["p"]), mkfile("proj", ["p"], "main", ["p"], [{"parts": ["p"], "sym": "*"}], True)], 2, cwd, search))
+        out.append(finish([mkfile("proj", ["p"], "Xa", ["p"], [{"parts": ["p"], "sym": "*"}]), mkfile("proj", ["p"], "main", ["p"], [{"parts": ["p"], "sym": "Xa"}], True)], 2, cwd, search))
     # two mains / no main
     out.append(finish([mkfile("proj", [], "Xa", ["?"], [], True), mkfile("proj", [], "main", ["?"], [{"parts": [], "sym": "Xa"}], True)], 2))
     out.append(finish([mkfile("proj", [], "Xa", ["?"]), mkfile("proj", [], "main", ["?"], [{"parts": [], "sym": "Xa"}], False)], 2))
